@@ -144,7 +144,11 @@ func checkC10(c *Check) {
 				// method agreement: leaf = AddRoute(routeTrees[m], …) with the same m
 				okM := false
 				if ar := asCall(leaf); ar != nil && callName(&ar.Call) == "route.AddRoute" {
-					if lk, isL := strip(ar.Call.Args[0]).(*ssa.Lookup); isL && vField(vAny, "routeTrees")(lk.X) && strip(lk.Index) == strip(mkey) {
+					tv := strip(ar.Call.Args[0])
+					if e, isE := tv.(*ssa.Extract); isE && e.Index == 0 {
+						tv = e.Tuple // tree, ok := r.routeTrees[m]
+					}
+					if lk, isL := tv.(*ssa.Lookup); isL && vField(vAny, "routeTrees")(lk.X) && strip(lk.Index) == strip(mkey) {
 						okM = true
 					}
 				}
